@@ -141,6 +141,9 @@ impl Check for Canonical {
             }
         };
         let out_a = fmt::apply(&case.text_a, &fa);
+        // the same unchanged document under the second option set, requested directly afterwards
+        // (an answer must depend on the options of ITS request)
+        let second = run(&case.text_a, case.o2);
         // null exactly when nothing would change
         if let Formatted::Edit(_, new_text) = &fa {
             if *new_text == case.text_a {
@@ -206,7 +209,7 @@ impl Check for Canonical {
                 }
             }
         }
-        match run(&case.text_a, case.o2) {
+        match second {
             Ok(f2) => {
                 let out2 = fmt::apply(&case.text_a, &f2);
                 match (&la, split_indent(&out2, case.o2)) {
@@ -237,16 +240,103 @@ impl Check for Canonical {
     }
 }
 
+/// Real binary: formatting is a function of (text, options) of the request - one document, a
+/// sequence of formatting requests under alternating option sets and across a change of the text;
+/// every answer must equal the answer of the handler called in process for that text and options.
+pub struct OptionSequence;
+
+impl Check for OptionSequence {
+    fn part(&self) -> &'static str {
+        "binary-sequence-of-option-sets"
+    }
+    fn max_len(&self) -> usize {
+        3500
+    }
+    fn shrink_iters(&self) -> u32 {
+        300
+    }
+    fn run(&self, bytes: &[u8]) -> CaseResult {
+        use crate::session::{self, RunOpts};
+        let case = decode(bytes);
+        let mut r = CaseResult::new(fnv(case.text_a.as_bytes()) ^ fnv(format!("{:?}{:?}", case.o1, case.o2).as_bytes()) ^ 0xb11);
+        let uri = crate::srv::default_uri().to_string();
+        let fparams = |o: Opts| json!({ "textDocument": { "uri": uri }, "options": { "tabSize": o.tab_size, "insertSpaces": o.insert_spaces } });
+        // (id, text the request is about, options)
+        let plan: Vec<(i64, &str, Opts)> = vec![(2, &case.text_a, case.o1), (3, &case.text_a, case.o2), (4, &case.text_a, case.o1), (5, &case.text_b, case.o2), (6, &case.text_b, case.o1), (7, &case.text_b, case.o1)];
+        let mut msgs = vec![session::request(1, "initialize", session::initialize_params(false)), session::notification("initialized", json!({}))];
+        msgs.push(session::notification("textDocument/didOpen", json!({ "textDocument": { "uri": uri, "languageId": "spl", "version": 1, "text": case.text_a } })));
+        for (id, text, o) in &plan {
+            if *id == 5 {
+                msgs.push(session::notification("textDocument/didChange", json!({ "textDocument": { "uri": uri, "version": 2 }, "contentChanges": [{ "text": text }] })));
+            }
+            msgs.push(session::request(*id, "textDocument/formatting", fparams(*o)));
+        }
+        msgs.push(session::request(100, "shutdown", Value::Null));
+        msgs.push(session::notification("exit", Value::Null));
+        r.evals = plan.len() as u64;
+        let chunks = session::one_chunk(&msgs);
+        let opts = RunOpts { close_stdin: true, timeout_ms: super::c18::WATCHDOG_MS, read_delay_ms: 0 };
+        let mut o = session::run(&chunks, &opts);
+        let mut tries = 1;
+        while o.timed_out && tries < 3 {
+            o = session::run(&chunks, &opts);
+            tries += 1;
+        }
+        let detail = |extra: Value| json!({ "text_a": case.text_a, "text_b": case.text_b, "o1": format!("{:?}", case.o1), "o2": format!("{:?}", case.o2), "extra": extra });
+        if o.timed_out {
+            r.fail("watchdog", "the server does not terminate (3 attempts)", detail(json!(null)));
+            return r;
+        }
+        let responses = o.responses();
+        for (id, text, opt) in &plan {
+            let Some(resp) = responses.iter().find(|x| x["id"].as_i64() == Some(*id)) else {
+                r.fail("no-response", format!("formatting request {} got no response (exit status {:?})", id, o.exit_code), detail(json!(null)));
+                return r;
+            };
+            let got = match &resp["result"] {
+                Value::Null => None,
+                Value::Array(a) if a.len() == 1 => a[0]["newText"].as_str().map(|t| t.to_string()),
+                other => {
+                    r.fail("not-one-edit", format!("request {}: result is neither null nor one edit: {}", id, other.to_string().chars().take(200).collect::<String>()), detail(json!(null)));
+                    return r;
+                }
+            };
+            let want = match fmt::format(text, *opt) {
+                Ok(Formatted::Unchanged) => None,
+                Ok(Formatted::Edit(_, t)) => Some(t),
+                Err((sig, what)) => {
+                    r.fail(sig, what, detail(json!(null)));
+                    return r;
+                }
+            };
+            if got != want {
+                r.fail(
+                    "answer-depends-on-earlier-requests",
+                    format!("request {} (options {:?}) in a sequence of formatting requests on one document is answered differently from the same request on a fresh server", id, opt),
+                    detail(json!({ "request": id, "binary": got, "fresh": want })),
+                );
+                return r;
+            }
+        }
+        r.nontrivial = case.o1 != case.o2;
+        r
+    }
+    fn describe(&self, bytes: &[u8]) -> Value {
+        let c = decode(bytes);
+        json!({ "text_a": c.text_a, "text_b": c.text_b, "o1": format!("{:?}", c.o1), "o2": format!("{:?}", c.o2) })
+    }
+}
+
 pub fn checks() -> Vec<Box<dyn Check>> {
-    vec![Box::new(Canonical)]
+    vec![Box::new(Canonical), Box::new(OptionSequence)]
 }
 
 pub fn run(ctx: &Ctx) -> i32 {
-    let parts = vec![crate::corpus_part(ctx, &checks()), run_pbt(ctx, &Canonical, ctx.n(20_000, 300_000))];
+    let parts = vec![crate::corpus_part(ctx, &checks()), run_pbt(ctx, &Canonical, ctx.n(20_000, 300_000)), run_pbt(ctx, &OptionSequence, ctx.n(600, 12_000))];
     finish(
         ctx,
         parts,
-        "syntactically valid programs in a random layout (with or without comments, comments in any gap) plus a re-layout of the same tokens and comments with other whitespace, two option sets (tabs; spaces 0..8); checks: format(format(x)) is null, both layouts give the same text, an edit is never returned when the text is unchanged, every line is indented by a whole number of the requested unit, lines after `{` are one unit deeper, outputs under two options differ only in the unit; non-trivial = nesting depth >= 2 and options other than 4 spaces; distinct = distinct (text, options); evaluations = formatting requests",
+        "syntactically valid programs in a random layout (with or without comments, comments in any gap) plus a re-layout of the same tokens and comments with other whitespace, two option sets (tabs; spaces 0..8); checks: format(format(x)) is null, both layouts give the same text, an edit is never returned when the text is unchanged, every line is indented by a whole number of the requested unit, lines after `{` are one unit deeper, outputs under two options differ only in the unit (the second option set is requested directly after the first on the unchanged document); real binary: six formatting requests on one document under alternating option sets and across a full-text change, each answered like the same request on a fresh in-process server; non-trivial = nesting depth >= 2 and options other than 4 spaces; distinct = distinct (text, options); evaluations = formatting requests",
         &["with tab size 0 the unit is empty: then the check is that no line is indented and that the contents equal those under the other option"],
         json!({}),
     )
